@@ -104,8 +104,10 @@ template <class VarVec>
 double ComputeValue(const AllDiffConstraint& con, const VarVec& x) {
   const auto& args = con.GetArguments();
   for (auto i=args.size(); i--; ) {
-    for (auto j=i; j--; ) {         // Should be integer vars.
-      if (std::round(x[args[i]]) == std::round(x[args[j]]))
+    for (auto j=i; j--; ) {         // Round integer vars only
+      if ((x.is_var_int(args[i]) && x.is_var_int(args[j])
+           && std::round(x[args[i]]) == std::round(x[args[j]]))
+          || std::fabs(x[args[i]] - x[args[j]]) <= x.feastol())
         return 0.0;
     }
   }
